@@ -788,7 +788,20 @@ pub fn child18(seed: u64, idx: u64) -> Value {
                     1 => FrameOffset::Frame(1 << 31),
                     2 => FrameOffset::StartSample(1 << 36),
                     3 => FrameOffset::StartSample(u64::MAX),
-                    _ => FrameOffset::Frame(rng.usize_below(1 << 20) as u32),
+                    // valid offsets of every coded length: random bit length, or a length-class
+                    // boundary (2^7, 2^11, 2^16, 2^21, 2^26, 2^31; 2^36 for start samples) +- 2
+                    _ => {
+                        let start_sample = rng.chance(1, 3);
+                        let maxbits = if start_sample { 36 } else { 31 };
+                        let v: u64 = if rng.flip() {
+                            rng.next_u64() >> (64 - 1 - rng.usize_below(maxbits))
+                        } else {
+                            let k = *rng.pick(&[7u32, 11, 16, 20, 21, 26, 31, 32, 36]);
+                            ((1u64 << k) as i64 + rng.range(-2, 2)).max(0) as u64
+                        };
+                        let v = v.min((1u64 << maxbits) - 1);
+                        if start_sample { FrameOffset::StartSample(v) } else { FrameOffset::Frame(v as u32) }
+                    }
                 };
                 desc = format!("FrameHeader::new(block={bs}, {ch:?}, bps={bps}, rate={rate}, {off:?})");
                 if let Ok(c) = FrameHeader::new(bs, ch, bps, rate, off) {
